@@ -246,12 +246,112 @@ pub fn check_bc(bc: &BuildCase, obs: &mut Obs) -> Result<(), Fail> {
     Ok(())
 }
 
+/// The same rule through the other public entry points that build symbols: the JS/WASM
+/// exports `qr(content)` / `qr_svg(content, options)` (host-compiled through the guarded hook). They have no mode
+/// option, so the mode in effect is the reference classification of the text; `qr` has no options at all (level Q,
+/// automatic version). A forced version is used as given or the call fails (`Err` / empty output) - it is never
+/// replaced by another version.
+pub fn check_entry(c: &Case, obs: &mut Obs) -> Result<(), Fail> {
+    use fast_qr::verif_wasm_host as wasm;
+    let text: Vec<u8> = match c.mode {
+        Mode::Byte => (0..c.len).map(|i| b'a' + ((i * 7 + c.variant) % 26) as u8).collect(),
+        m => filler(m, c.len, c.variant),
+    };
+    let mode = classify(&text);
+    let level_eff = if c.force_level { c.level } else { Level::Q };
+    let expect_for = |level: Level, forced: Option<usize>| -> Result<usize, BuildErr> {
+        match (min_version(level, mode, text.len()), forced) {
+            (None, _) => Err(BuildErr::TooBig),
+            (Some(m), None) => Ok(m),
+            (Some(m), Some(f)) if f >= m => Ok(f),
+            (Some(_), Some(_)) => Err(BuildErr::VersionTooSmall),
+        }
+    };
+    let content = String::from_utf8(text.clone()).expect("ascii");
+    let margin = c.variant % 6;
+    // qr_svg
+    let svg = crate::engine::catch(|| {
+        let mut o = wasm::SvgOptions::new().margin(margin);
+        if c.force_level {
+            o = o.ecl(crate::fq::f_level(c.level));
+        }
+        if let Some(v) = c.forced {
+            o = o.version(crate::fq::f_version(v));
+        }
+        if c.variant % 3 == 0 {
+            o = o.shape(crate::svgcase::SHAPES[c.variant % 6]);
+        }
+        wasm::qr_svg(&content, o)
+    })
+    .map_err(|p| Fail { sig: panic_sig(&p), msg: format!("wasm qr_svg panicked: {} ({:?})", p, c) })?;
+    let expect = expect_for(level_eff, c.forced);
+    let got: Result<usize, ()> = if svg.is_empty() {
+        Err(())
+    } else {
+        let side: usize = svg
+            .split("viewBox=\"")
+            .nth(1)
+            .and_then(|r| r.split('"').next())
+            .and_then(|v| v.split_whitespace().nth(2))
+            .and_then(|x| x.parse().ok())
+            .ok_or_else(|| Fail { sig: "wasm_viewbox".into(), msg: format!("qr_svg output has no viewBox ({:?})", c) })?;
+        ensure!(side >= 21 + 2 * margin && (side - 2 * margin - 17) % 4 == 0, "wasm_viewbox", "qr_svg viewBox side {} with margin {} is no symbol size ({:?})", side, margin, c);
+        Ok((side - 2 * margin - 17) / 4)
+    };
+    match (&got, &expect) {
+        (Ok(g), Ok(v)) if g == v => obs.label(if c.forced.is_some() { "wasm_svg:ok_forced" } else { "wasm_svg:ok_auto" }),
+        (Err(()), Err(_)) => obs.label("wasm_svg:refused"),
+        _ => {
+            let sig = match (&got, &expect) {
+                (Ok(_), Err(BuildErr::VersionTooSmall)) => "wasm:accepted_too_small_forced_version",
+                (Ok(_), Err(_)) => "wasm:accepted_over_capacity",
+                (Err(()), Ok(_)) => "wasm:rejected_fitting_input",
+                _ if c.forced.is_some() => "wasm:forced_version_not_used",
+                _ => "wasm:wrong_version",
+            };
+            return fail(sig, format!("wasm qr_svg, {} chars {} level {} forced version {:?}: got {:?} (version or refusal), expected {:?}", text.len(), mode.name(), level_eff.name(), c.forced, got, expect));
+        }
+    }
+    // qr(content): level Q, automatic version
+    let bytes = crate::engine::catch(|| wasm::qr(&content)).map_err(|p| Fail { sig: panic_sig(&p), msg: format!("wasm qr panicked: {} ({:?})", p, c) })?;
+    let expect_q = expect_for(Level::Q, None);
+    let got_q: Result<usize, ()> = if bytes.is_empty() {
+        Err(())
+    } else {
+        let n = (bytes.len() as f64).sqrt().round() as usize;
+        ensure!(n * n == bytes.len() && n >= 21 && (n - 17) % 4 == 0, "wasm_qr_size", "wasm qr returned {} modules, not a symbol size ({:?})", bytes.len(), c);
+        Ok((n - 17) / 4)
+    };
+    match (&got_q, &expect_q) {
+        (Ok(g), Ok(v)) if g == v => {}
+        (Err(()), Err(_)) => {}
+        _ => return fail("wasm_qr:wrong_version", format!("wasm qr, {} chars {}: got {:?}, expected {:?} at level Q", text.len(), mode.name(), got_q, expect_q)),
+    }
+    let near = (1..=40).any(|v| {
+        let cap = capacity(v, level_eff, mode);
+        text.len() + 1 >= cap && text.len() <= cap + 1
+    });
+    if near || expect.is_err() {
+        obs.nontrivial(crate::engine::hash_value(&to_json(c)) ^ 0x77);
+    }
+    obs.sample(&format!("entry_points|{}", if expect.is_ok() { "ok" } else { "refused" }), || {
+        let mut j = to_json(c);
+        j["entry_points"] = json!(true);
+        j["expected"] = json!(format!("{:?}", expect));
+        j
+    });
+    Ok(())
+}
+
 pub fn replay(_e: &Engine, case: &Value, obs: &mut Obs) -> Result<(), Fail> {
     if case.get("input_hex").is_some() {
         let bc = BuildCase::from_json(case).ok_or_else(|| Fail { sig: "bad_replay".into(), msg: "cannot parse case".into() })?;
         return check_bc(&bc, obs);
     }
     let c = from_json(case).ok_or_else(|| Fail { sig: "bad_replay".into(), msg: "cannot parse case".into() })?;
+    if case.get("entry_points").is_some() {
+        return check_entry(&c, obs);
+    }
     check(&c, obs)
 }
 
@@ -397,6 +497,45 @@ pub fn run(e: &'static Engine) {
             jc.run_prop(5 << 20, &strat, total / shards / 8, |c| c.to_json(), |c, o| {
                 o.label("part:long_mixed_class");
                 check_bc(c, o)
+            });
+        }));
+    }
+    e.par(jobs);
+    // (6) the same rule through the JS/WASM exports; forced versions around the minimal one
+    let total: u32 = e.tier.pick(4800, 96_000);
+    let shards = e.tier.pick(16u32, 64);
+    let mut jobs: Vec<Job> = Vec::new();
+    for _ in 0..shards {
+        jobs.push(Box::new(move |jc: &mut JobCtx| {
+            let strat = (0usize..3, 0usize..4, any::<u16>(), 0usize..8, any::<u16>(), 0usize..30, any::<bool>()).prop_map(|(mi, li, vsel, fsel, off, variant, fl)| {
+                let mode = Mode::from_index(mi);
+                let level = Level::from_index(li);
+                let level_eff = if fl { level } else { Level::Q };
+                // small versions more often (cost), every version reachable
+                let v = if vsel % 4 == 0 { 1 + pick(vsel >> 2, 40) } else { 1 + pick(vsel >> 2, 10) };
+                let cap = capacity(v, level_eff, mode);
+                let len = match off % 6 {
+                    0 => cap,
+                    1 => cap + 1,
+                    2 => cap.saturating_sub(1),
+                    3 => pick(off, cap + 1),
+                    4 => cap + 2,
+                    _ => pick(off, 7300),
+                };
+                let forced = match fsel {
+                    0 | 1 => None,
+                    2 => Some(v),
+                    3 => Some((v + 1).min(40)),
+                    4 => Some(v.saturating_sub(1).max(1)),
+                    5 => Some(v.saturating_sub(2).max(1)),
+                    6 => Some(1 + pick(off.rotate_left(5), 40)),
+                    _ => Some(1),
+                };
+                Case { payload_class: None, mode, level, len, forced, force_mode: false, force_level: fl, variant }
+            });
+            jc.run_prop(6 << 20, &strat, total / shards, |c| { let mut j = to_json(c); j["entry_points"] = json!(true); j }, |c, o| {
+                o.label("part:other_entry_points");
+                check_entry(c, o)
             });
         }));
     }
